@@ -284,6 +284,11 @@ func (dlv *Delivery) Normalize(normalizers tax.Normalizers) {
 	tax.Normalize(normalizers, dlv.Tax)
 	tax.Normalize(normalizers, dlv.Supplier)
 	tax.Normalize(normalizers, dlv.Customer)
+	if dlv.HasTags(tax.TagCustomerRates) {
+		// the customer's country must be on the combos before they are
+		// normalized, so that the result does not change on a second pass
+		applyCustomerRates(dlv)
+	}
 	tax.Normalize(normalizers, dlv.Despatcher)
 	tax.Normalize(normalizers, dlv.Receiver)
 	tax.Normalize(normalizers, dlv.Preceding)
